@@ -580,3 +580,15 @@ B('e_bind_options_container_prefix_field_swapped', ['C10'], 'R10.b',
   (R, 'import re\n', 'import re\nfrom collections import namedtuple\n'),
   (R, 'class BoundRoute(object):\n', _OPTS_CLASS % 'True'),
   (R, _POPS_AND_CHECK, _OPTS_USE.replace('prefix, rebind_render = opts.prefix, opts.rebind_render', 'prefix, rebind_render = opts.rebind_render, opts.prefix')))
+
+# ---- R11.e at the sites that start a re-binding
+B('e_bound_route_rebinds_its_unbound_route', ['C11'], 'R11.e',
+  (R, '        return BoundRoute(self, app, **kwargs)\n\n    def iter_routes(self):\n        yield self\n\n    @property',
+      '        return BoundRoute(self.unbound_route, app, **kwargs)\n\n    def iter_routes(self):\n        yield self\n\n    @property'))
+B('e_bind_all_rebinds_the_unbound_routes', ['C11'], 'R11.e',
+  (A, '            bound_rt = rt.bind(app, **kwargs)\n', '            bound_rt = rt.unbound_route.bind(app, **kwargs)\n'))
+B('e_bind_all_rebinds_the_unbound_routes_named', ['C11'], 'R11.e',
+  (A, '            bound_rt = rt.bind(app, **kwargs)\n', '            declared = rt.unbound_route\n            bound_rt = declared.bind(app, **kwargs)\n'))
+T('e_bound_route_rebinds_itself_named', ['C10', 'C11'],
+  (R, '        return BoundRoute(self, app, **kwargs)\n\n    def iter_routes(self):\n        yield self\n\n    @property',
+      '        inner = self\n        rebound = BoundRoute(inner, app, **kwargs)\n        return rebound\n\n    def iter_routes(self):\n        yield self\n\n    @property'))
